@@ -5,12 +5,19 @@
    The 64-bit SipHash of the key is assumed injective on the keys in play. *)
 From CV Require Import Model.Base Model.Expr Model.Enforce Model.Engine.
 
-Inductive ckey := CKPlain (rv : list value) | CKCtx (k : text) (rv : list value).
+Inductive ckey :=
+| CKPlain (rv : list value)
+| CKCtx4 (rk pk ek mk : text) (rv : list value).   (* EnforceContext {r_type, p_type, e_type, m_type} *)
+
+(* EnforceContext::new(k) *)
+Definition CKCtx (k : text) (rv : list value) : ckey :=
+  CKCtx4 (s_r ++ k) (s_p ++ k) (s_e ++ k) (s_m ++ k) rv.
 
 Definition ckey_eqb (a b : ckey) : bool :=
   match a, b with
   | CKPlain x, CKPlain y => list_eqb veqb x y
-  | CKCtx k x, CKCtx k' y => teqb k k' && list_eqb veqb x y
+  | CKCtx4 r1 p1 e1 m1 x, CKCtx4 r2 p2 e2 m2 y =>
+    teqb r1 r2 && teqb p1 p2 && teqb e1 e2 && teqb m1 m2 && list_eqb veqb x y
   | _, _ => false
   end.
 
@@ -28,7 +35,7 @@ Section CachedEnforce.
   Definition decide (s : estate) (k : ckey) : outcome bool :=
     match k with
     | CKPlain rv => enforce ptab s rv
-    | CKCtx sfx rv => enforce_with_ctx ptab s sfx rv
+    | CKCtx4 rk pk ek mk rv => enforce_with_ctx4 ptab s rk pk ek mk rv
     end.
 
   (* CachedEnforcer::enforce / enforce_with_context: a hit answers from the
